@@ -83,6 +83,13 @@ Definition cache_wire (multi : list wcmd) (ff : nat) (m : msg) (now : Z) : resul
       end
   end.
 
+(** the store calls as operations of Model/Lru.v (what a connection history feeds to [Lru.step]) *)
+Definition op_of_scall (c : scall) : op :=
+  match c with
+  | SUpdate k c v => Update k c v
+  | SCancel k c _ => Cancel k c 1
+  end.
+
 (** correspondence case: the store calls a real pipe made for reply [ff] of batch [multi]; the reader's
     time.Now() lies between two harness readings [t0] <= [t1]; expiries are compared as intervals *)
 Inductive ocall := OUpd (k c : bytes) (v : msg) | OCan (k c : bytes).
